@@ -280,7 +280,7 @@ func (w *World) effectsIn(fn *ssa.Function, region func(*ssa.BasicBlock) bool, o
 				case *ssa.Go:
 					pre = "go "
 				case *ssa.Defer:
-					pre = "defer "
+					// deferred or called before every return: the same effect
 				}
 				set[pre+name] = true
 			case *ssa.Send:
@@ -377,8 +377,16 @@ func (w *World) computeSig(root *ssa.Function) funcSig {
 					pos = v.Pos()
 				}
 			}
-			into := func(a, b *ssa.BasicBlock) bool { return a != b && blockReach(a, nil)[b] }
-			leaves := func(b *ssa.BasicBlock) bool {
+			// "runs into the other side's code" within this pass of the enclosing loop: do not follow back edges
+			backTargets := map[*ssa.BasicBlock]bool{}
+			for _, x := range fn.Blocks {
+				if x != b && x.Dominates(b) {
+					backTargets[x] = true
+				}
+			}
+			into := func(a, c *ssa.BasicBlock) bool { return a != c && !backTargets[a] && blockReach(a, backTargets)[c] }
+			condBlock := b
+			exitsFn := func(b *ssa.BasicBlock) bool {
 				if len(b.Instrs) == 0 {
 					return false
 				}
@@ -388,7 +396,22 @@ func (w *World) computeSig(root *ssa.Function) funcSig {
 				}
 				return false
 			}
-			sig.Conds = append(sig.Conds, condSig{C: c, P: pair, T: ts, F: fs, TF: into(t, f), FT: into(f, t), TX: leaves(t), FX: leaves(f), at: pos})
+			leaves := func(b *ssa.BasicBlock) bool {
+				if len(b.Instrs) == 0 {
+					return false
+				}
+				switch b.Instrs[len(b.Instrs)-1].(type) {
+				case *ssa.Return, *ssa.Panic:
+					return true
+				case *ssa.Jump:
+					// `continue`: the side jumps straight back to a block that dominates the decision (the loop head)
+					if len(b.Succs) == 1 && b.Succs[0] != condBlock && b.Succs[0].Dominates(condBlock) {
+						return true
+					}
+				}
+				return false
+			}
+			sig.Conds = append(sig.Conds, condSig{C: c, P: pair, T: ts, F: fs, TF: into(t, f) && !exitsFn(f), FT: into(f, t) && !exitsFn(t), TX: leaves(t), FX: leaves(f), at: pos})
 		}
 		// argument order at calls of repository functions
 		eachInstr(fn, func(in ssa.Instruction) {
